@@ -114,6 +114,10 @@ func (m *Sign1Message) Sign(rand io.Reader, external []byte, signer Signer) erro
 	if err != nil {
 		return err
 	}
+	if len(sig) == 0 {
+		// a signer that reports success must have produced a signature
+		return ErrEmptySignature
+	}
 
 	m.Signature = sig
 	return nil
